@@ -95,7 +95,7 @@ def statusInterp (s : State) (e : Event) (target route : RExpr) : Option (Nat ×
   | _ => Option.none
 
 /-- the first segment of the route code, or `None` -/
-def refPrefix : RExpr := .ite (.notNone .kwRoute) (.firstSeg .kwRoute) .kwRoute
+def refPrefix : RExpr := .ite (.notNone .kwRoute) (.firstSeg .kwRoute) .none
 
 /-- the terms the model `route` was written from -/
 def refStatusTarget : RExpr :=
